@@ -90,7 +90,8 @@ def _parse_cookie_header(header_value: str) -> Dict[str, List[str]]:
         # PERF(kgriffs): These checks have been hoisted from within _unquote()
         # to avoid the extra function call in the majority of the cases when it
         # is not needed.
-        if len(value) > 2 and value[0] == '"' and value[-1] == '"':
+        # NOTE: an empty quoted value ("") is two characters long.
+        if len(value) >= 2 and value[0] == '"' and value[-1] == '"':
             value = http_cookies._unquote(value)
 
         # PERF(kgriffs): This is slightly more performant as
